@@ -616,6 +616,8 @@ def daqmx_cases(draw):
 @st.composite
 def cases(draw, **kw):
     fs = draw(S.file_spec(**kw))
+    if draw(st.integers(0, 3)) == 0:
+        fs = draw(S.with_continuation(fs))      # raw-data-only segments repeating the last layout, either byte order
     return {'fs': fs, 'memmap': draw(st.integers(0, 3)) == 0, 'raw_ts': draw(st.booleans()),
             'as_path': draw(st.sampled_from([False, False, False, True, 'pathlib']))}
 
